@@ -175,6 +175,24 @@ def check_case(ctx, desc, routes, cross=None):
         narrowed = desc["cat"] in dt.TABLE and desc["at"][1] in dt.TABLE and dt.intersect(desc["cat"], desc["at"][1]) != outer
     sentinel = any(t in desc["spec"].split() or t.startswith("_") for t in desc["spec"].split() for t in [t]) and ("_" in desc["spec"] or "..." in desc["spec"])
     v0 = vector(ann)
+    if desc.get("twin_generator"):
+        # elsewhere in the process an identically spelled annotation (a class of its own) is the return annotation of a generator
+        # function decorated the old way -- whatever jaxtyping does to that class concerns neither `ann` nor its copies
+        import warnings
+
+        twin = build(desc)
+
+        def _gen():
+            yield None
+
+        _gen.__annotations__ = {"return": twin}
+        with warnings.catch_warnings():
+            warnings.simplefilter("ignore")
+            try:
+                jaxtyped(typechecker=None)(_gen)
+            except Exception:
+                pass
+        ctx.classes["identically-spelled-twin-on-old-style-generator"] += 1
     for route in routes:
         try:
             back = roundtrip(ann, route)
@@ -363,7 +381,8 @@ def c20_desc(draw):
     toks = draw(gd.legal_spec(max_axes=4, bound=["a"], names=["a", "b"], vnames=["v"], multi_prob=0.45))
     if draw(st.integers(0, 5)) == 0:
         toks = [dl.Token("*", "empty", None) if t.is_multi() else t for t in toks]
-    return {"cat": draw(st.sampled_from(["Shaped", "Float", "Num", "Inexact"] + CATS + USER)), "at": draw(array_type_desc()), "spec": dl.spec_spelling(toks)}
+    return {"cat": draw(st.sampled_from(["Shaped", "Float", "Num", "Inexact"] + CATS + USER)), "at": draw(array_type_desc()), "spec": dl.spec_spelling(toks),
+            "twin_generator": draw(st.sampled_from([False, True, False, False]))}
 
 
 def run(ctx):
